@@ -1368,6 +1368,13 @@ def _is_unquote_splicing(form: RawReaderForm) -> bool:
         return False
 
 
+def _unquoted_form(ctx: ReaderContext, form: RawReaderForm) -> RawReaderForm:
+    """Return the form inside an unquote or unquote-splicing form."""
+    if len(form) != 2:  # type: ignore[arg-type]
+        raise ctx.syntax_error(f"{form.first} takes exactly one form")  # type: ignore[union-attr]
+    return form[1]  # type: ignore[index]
+
+
 def _expand_syntax_quote(
     ctx: ReaderContext, form: IterableLispForm
 ) -> Iterable[LispForm]:
@@ -1386,9 +1393,9 @@ def _expand_syntax_quote(
 
     for elem in form:
         if _is_unquote(elem):
-            expanded.append(llist.l(_LIST, elem[1]))
+            expanded.append(llist.l(_LIST, _unquoted_form(ctx, elem)))
         elif _is_unquote_splicing(elem):
-            expanded.append(elem[1])
+            expanded.append(_unquoted_form(ctx, elem))
         else:
             expanded.append(llist.l(_LIST, _process_syntax_quoted_form(ctx, elem)))
 
@@ -1425,7 +1432,7 @@ def _process_syntax_quoted_form(
     All other forms are passed through without modification."""
     lconcat = lambda v: llist.list(v).cons(_CONCAT)
     if _is_unquote(form):
-        return form[1]  # type: ignore
+        return _unquoted_form(ctx, form)
     elif _is_unquote_splicing(form):
         raise ctx.syntax_error("Cannot splice outside collection")
     elif isinstance(form, llist.PersistentList):
